@@ -239,3 +239,31 @@ def _(self: Union[TABLE(1), TABLE(2), TABLE(3)], start_addr: Range(0, 0x0FFFFFFF
             label="entry-2-source-holds-image-2")
     modifies(self.start_address, self._entries[0]._src_addr, self._entries[1]._src_addr, self._entries[2]._src_addr)
     sample_with(lambda rnd: {"self": _mk_table(rnd), "start_addr": rnd.choice([0, 0x400, 0x3FC])})
+
+
+# ---- key store of load-to-RAM images: on parse it is read from right behind the HMAC block, whether or not the HMAC key is known yet ---------
+from spsdk.image.keystore import KeySourceType  # noqa: E402
+from spsdk.image.mbi.mbi_mixin import Mbi_MixinKeyStore  # noqa: E402
+
+inline("spsdk.image.mbi.mbi_mixin:Mbi_MixinIvt.get_key_store_presented", "spsdk.image.keystore:KeyStore.__init__")
+
+
+def _mk_ksm(rnd):
+    m = object.__new__(Mbi_MixinKeyStore)
+    m.ivt_table, m.HMAC_OFFSET, m.HMAC_SIZE = object.__new__(Mbi_MixinIvt), 64, 32
+    m.hmac_key = rnd.choice([None, bytes(32), bytes(rnd.getrandbits(8) for _ in range(32))])
+    m.key_store = None
+    data = bytearray(rnd.getrandbits(8) for _ in range(rnd.choice([1520, 1600, 4000])))
+    data[0x24:0x28] = (rnd.getrandbits(32) & ~0x8000 | (0x8000 if rnd.random() < 0.7 else 0)).to_bytes(4, "little")
+    return {"self": m, "data": bytes(data)}
+
+
+@contract("spsdk.image.mbi.mbi_mixin:Mbi_MixinKeyStore.mix_parse")
+def _(self: Obj(Mbi_MixinKeyStore, ivt_table=Obj(Mbi_MixinIvt), HMAC_OFFSET=Const(64), HMAC_SIZE=Const(32), hmac_key=Optional[Bytes(32)], key_store=KS),
+      data: Bytes(lo=1520, hi=1 << 20)):
+    let(present=int.from_bytes(data[0x24:0x28], "little") // 0x8000 % 2 == 1)
+    ensures(implies(not present, self.key_store is None), label="no-key-store-flag-no-key-store")
+    ensures(implies(present, self.key_store is not None and self.key_store._key_store == data[96: 96 + 1424] and self.key_store._key_source == KeySourceType.KEYSTORE),
+            label="key-store-is-the-1424-bytes-behind-the-hmac-block")
+    modifies(self.key_store)
+    sample_with(lambda rnd: _mk_ksm(rnd))
